@@ -34,7 +34,7 @@ if os.environ.get("C15_PROPOSED_FINDINGS"):
 MODELLED = ("ethernet", "vlan", "llc", "arp", "ipv4", "udp", "tcp", "icmp", "echo", "unreach", "time_exceeded", "lldp",
             # phase 2
             "mpls", "eapol", "eap", "vxlan", "rip", "dns", "ipv6", "icmpv6", "TimeExceeded", "PacketTooBig", "NDRouterSolicitation",
-            "NDRouterAdvertisement", "NDNeighborSolicitation", "NDNeighborAdvertisement", "gre", "igmp")
+            "NDRouterAdvertisement", "NDNeighborSolicitation", "NDNeighborAdvertisement", "gre", "igmp", "dhcp")
 NO_RAW = ("icmp", "NDRouterSolicitation", "NDRouterAdvertisement", "NDNeighborSolicitation", "NDNeighborAdvertisement")
 UDP_FOREIGN = {67: "dhcp", 68: "dhcp", 53: "dns", 5353: "dns", 520: "rip", 4789: "vxlan"}
 
@@ -61,6 +61,7 @@ class C15(Check):
                                "NDNeighborSolicitation.unpack_new", "NDNeighborAdvertisement.unpack_new", "TimeExceeded.unpack_new", "PacketTooBig.unpack_new",
                                "echo.parse", "unreach.parse", "icmpv6.parse"],
                     "gre": ["gre.parse"], "igmp": ["igmp.parse", "GroupRecord.unpack_new"], "dns": ["dns.parse"],
+                    "dhcp": ["dhcp.parse", "dhcp.parseOptions", "dhcp.parseOptionSegment", "dhcp.unpackOptions"],
                     "lldp": ["lldp.next_tlv", "lldp.parse", "lldp.__str__", "simple_tlv.parse", "chassis_id._parse_data", "port_id._parse_data", "ttl._parse_data",
                              "end_tlv._parse_data", "management_address._parse_data", "organizationally_specific._parse_data",
                              "system_capabilities._parse_data", "chassis_id.__str__", "port_id.__str__"]}
@@ -70,9 +71,9 @@ class C15(Check):
     design_ref = "DESIGN.md §5 C15, §3 Model/Packet, §6 D14, Appendix A.3"
     technique = ("Lean 4 proof about a hand-written executable model (Except-valued: every struct.unpack of a wrong-size slice, index, "
                  "deliberate raise and %-format of None is an error) of the Ethernet/VLAN/LLC-SNAP/ARP/IPv4/ICMP/TCP(+options)/UDP/LLDP parse, pack "
-                 "and print paths and the MPLS/EAPOL/EAP/IPv6(+extension headers)/ICMPv6(+NDP)/IGMP/GRE/VXLAN/RIP/DNS parse paths + differential correspondence of the compiled model against the real classes on exhaustive truncation / "
+                 "and print paths and the MPLS/EAPOL/EAP/IPv6(+extension headers)/ICMPv6(+NDP)/IGMP/GRE/VXLAN/RIP/DNS/DHCP parse paths + differential correspondence of the compiled model against the real classes on exhaustive truncation / "
                  "single-byte corruption / structure-aware / random frames + independent 'nothing raises, progress recorded' oracle on all 21 parsers")
-    rule = ("case = one byte string offered to ethernet(raw=...): a valid frame of the 90-frame corpus (all 21 modules), every truncation of it, "
+    rule = ("case = one byte string offered to ethernet(raw=...): a valid frame of the 96-frame corpus (all 21 modules), every truncation of it, "
             "all 256 values at its header-boundary offsets and the 8 single-bit flips elsewhere, structure-aware mutants (length fields, option/TLV "
             "lengths, header-length nibbles, DNS pointers, nesting) or random bytes; distinct = sha1 of the frame; non-trivial = ethernet header parsed "
             "and at least one further parser entered")
@@ -215,7 +216,29 @@ class C15(Check):
         if name == "igmp": return {"vt": o.ver_and_type, "mrt": o.max_response_time, "csum": o.csum, "addr": None if o.address is None else self._ip(o.address),
                                    "groups": [[r.type, self._ip(r.address), [self._ip(a) for a in r.source_addresses], self._hex(r.aux)] for r in o.group_records],
                                    "extra": self._hex(o.extra)}
+        if name == "dhcp":
+            ch = o.chaddr
+            opts = getattr(o, "options", None)
+            return {"op": o.op, "htype": o.htype, "hlen": o.hlen, "hops": o.hops, "xid": o.xid, "secs": o.secs, "flags": o.flags, "ciaddr": self._ip(o.ciaddr),
+                    "yiaddr": self._ip(o.yiaddr), "siaddr": self._ip(o.siaddr), "giaddr": self._ip(o.giaddr), "chaddr": None if ch is None else self._mac(ch),
+                    "sname": self._hex(o.sname), "file": self._hex(o.file), "magic": self._hex(o.magic),
+                    "options": None if opts is None else [[c, self._dhcp_raw(v)] for c, v in opts.items()]}
         return {}
+
+    def _dhcp_raw(self, v):
+        """the option's bytes, recovered from the object `unpackOptions` made of them (raw / IP / IP list / seconds classes)"""
+        try:
+            if isinstance(v, (bytes, bytearray)): return bytes(v).hex()
+            if hasattr(v, "data"): return bytes(v.data).hex()
+            if hasattr(v, "addrs"): return b"".join(a.toRaw() for a in v.addrs).hex()
+            if hasattr(v, "addr"): return v.addr.toRaw().hex()
+            if hasattr(v, "seconds"): return struct.pack("!I", v.seconds).hex()
+            if hasattr(v, "options"): return bytes(v.options).hex()          # DHCPParameterRequestOption (only an empty one unpacks, D45)
+            if hasattr(v, "type"): return bytes([v.type]).hex()
+            if hasattr(v, "value"): return bytes([v.value]).hex()
+        except Exception as e:
+            return "!" + type(e).__name__
+        return "!" + type(v).__name__
 
     def _ndo(self, o):
         out = []
@@ -353,12 +376,21 @@ class C15(Check):
         if obs["slices"]: return "progress: " + obs["slices"]
         if obs["pktin"] != sk: return "PacketIn.parsed differs from ethernet(raw): %s vs %s" % (obs["pktin"][:3], sk[:3])
         if not obs.get("pktin_same_object"): return "PacketIn.parsed re-parses on every access"
-        # pack / str / dump: one registered finding must not hide another failure of the same frame
+        # pack / str / dump.  One registered finding must not hide another failure of the same frame; and a frame whose only failures are
+        # registered pack()/print findings is NOT reported as failing here: the runner skips the model comparison for failing cases, and the
+        # parse chain of those frames (every parsed DHCP, NDP, GRE-with-routing frame) must still be compared with the model.  Those
+        # findings are counted in `soft_known` and printed as KNOWN-FINDING lines by extra_evidence().
         fails = ["%s() of the parse result raises %s in %s" % (stage, obs[stage]["exc"], obs[stage]["where"])
                  for stage in ("pack", "str", "dump") if isinstance(obs[stage], dict)]
         for f in fails:
-            if self._known.match(self.id, self._finding_key(case, obs, f)) is None: return f
-        return fails[0] if fails else None
+            k = self._finding_key(case, obs, f)
+            kf = self._known.match(self.id, k)
+            if kf is None: return f
+            self.soft_known.setdefault(kf["id"], kf)
+            self.keys_seen[k] = self.keys_seen.get(k, 0) + 1
+        return None
+
+    soft_known = {}
 
     def finding_key(self, case, obs, failure):
         k = self._finding_key(case, obs, failure)
@@ -588,7 +620,9 @@ class C15(Check):
         for c in self.generate(rng, "thorough"): yield c
 
     def extra_evidence(self):
-        return {"distinct_failure_keys": dict(sorted(self.keys_seen.items())), "technique": self.technique, "level_text": self.level_text, "level_note": self.level_note, "design_ref": self.design_ref}
+        for fid, kf in sorted(self.soft_known.items()):
+            print("KNOWN-FINDING: property=%s %s %s" % (self.id, fid, kf.get("what", "")))
+        return {"known_pack_print_findings_hit": sorted(self.soft_known), "distinct_failure_keys": dict(sorted(self.keys_seen.items())), "technique": self.technique, "level_text": self.level_text, "level_note": self.level_note, "design_ref": self.design_ref}
 
 C15.theorems = ["Pox.C15." + t for t in (
     "parse_total_partial", "parse_total_of_no_known", "nesting_defect", "progress_recorded", "repack_total_partial", "print_total_partial",
@@ -598,19 +632,20 @@ C15.level_text = (
     "Proved in Lean for EVERY byte string offered to ethernet(raw=...) (= PacketIn.parsed), for a model in which every struct.unpack of a wrong-size slice, "
     "index past the end, ord() of an empty slice, deliberate raise, assert and %-format of None is an error: given len/4+1 nested constructor activations the "
     "code at HEAD either returns an object chain or raises at one of the registered findings C15-K5..K14 - nothing else (parse_total_partial, "
-    "parse_total_of_no_known) - on every path through 23 parser classes: Ethernet -> 802.1Q (nested) / LLC-SNAP -> ARP / IPv4(+options) -> ICMP echo/unreachable/"
+    "parse_total_of_no_known) - on every path through the parser classes of all 21 modules: Ethernet -> 802.1Q (nested) / LLC-SNAP -> ARP / IPv4(+options) -> ICMP echo/unreachable/"
     "time-exceeded (quoted datagram, nested) / TCP (+option parser) / UDP, LLDP with all TLV classes, and (phase 2) MPLS, EAPOL/EAP, IPv6 + extension-header "
     "chain, ICMPv6 (checksum, echo, unreachable, time-exceeded, packet-too-big) + NDP RS/RA/NS/NA with the option walker, IGMP v1-v3, GRE (+source routing), "
-    "VXLAN, RIP, DNS (as the code stands). Each finding K5..K14 has a decided witness (known_k*). The result covers the whole input and tiles it "
+    "VXLAN, RIP, DNS (as the code stands), DHCP (fixed part + option walker). Each finding K5..K14 has a decided witness (known_k*). The result covers the whole input and tiles it "
     "(progress_recorded); pack() of any result made of phase-1 classes is defined (repack_total_partial), str()/dump() is defined (print_total_partial); "
     "the phase-1 model returns what the total C14 parser returns (refines_c14). Also proved: for every nesting budget d a frame of 14+4d bytes raises "
     "RecursionError (nesting_defect, K1), and five defects of the tree before the repairs with their repaired counterparts. Every run re-checks BOTH models "
-    "(phase-2 parsers modelled / left foreign) against the real classes on every truncation and single-byte corruption of 90 valid frames covering all 21 "
+    "(phase-2 parsers modelled / left foreign) against the real classes on every truncation and single-byte corruption of 96 valid frames covering all 21 "
     "modules and evaluates the 'nothing raises, progress recorded' oracle.")
 C15.level_note = (
     "The theorems are about the hand-written model Model/PacketParse.lean of the code at HEAD, i.e. after the repairs D14, C15-1..C15-7 (Cfg.head = the tree before "
-    "them, used only by the _defect witnesses); they are tied to the code only by the differential run. PARTIAL: DHCP and the MPTCP TCP option end the model's "
-    "chain as `foreign` (nothing proved; oracle only); pack()/str() of the phase-2 classes are not modelled (their known failures are findings K2-K4, K11, K12, K15, K16; "
+    "them, used only by the _defect witnesses); they are tied to the code only by the differential run. PARTIAL: a TCP segment carrying the MPTCP option ends the model's "
+    "chain as `foreign` (nothing proved; oracle only); the DHCP option *classes* are not modelled (unpackOptions wraps each in try/except and falls back to the raw "
+    "bytes; the model keeps code + bytes); pack()/str() of the phase-2 classes are not modelled (their known failures are findings K2-K4, K11, K12, K15, K16; "
     "oracle only). DNS is modelled as the code stands: any announced question/record makes parse give up (ord() on an int inside the try/except, D46), so name "
     "decompression and its pointer loops are unreachable and not modelled. K14 is over-approximated (IPAddr of a 0..3-byte slice is libc's text parse): where "
     "Python happens to accept the text the model declines and nothing is compared. struct.pack('!I', len) in the ICMPv6 checksum is assumed not to overflow "
